@@ -130,7 +130,10 @@ def one_case(ctx: Ctx, rng, cidx: int, stores: dict) -> None:
     # exhaustive / random samplers: categorical choice lists may contain NaN (a legal choice that comes back from a serialising
     # storage as a different NaN object)
     nan_choice = sampler_name == "grid" or (sampler_name in ("bruteforce", "random") and cidx % 3 == 0)
-    prog = optrun.gen_program(rng, nobj, finite=finite, fixed_args=(sampler_name == "grid"), nan_choice=nan_choice)
+    # (partial_fixed: one range per name, so that the fixed value lies inside every declaration of its parameter - a fixed value
+    # outside the range is passed through with a warning by design and copy_study then rightly refuses the trial: a false alarm of
+    # the thorough tier)
+    prog = optrun.gen_program(rng, nobj, finite=finite, fixed_args=(sampler_name in ("grid", "partial_fixed")), nan_choice=nan_choice)
     if nan_choice and "nan" in repr(prog["tree"]):
         ctx.count("programs_with_a_nan_categorical_choice")
     seed = rng.randint(0, 10 ** 6)
